@@ -65,6 +65,8 @@ def run(c):
         io.seek(c.get("loc", 0))
         v = ce.read_unsigned_var_int(io)
         return {"val": int(v), "loc": io.tell()}
+    if k == "width_from_max_int":
+        return {"val": int(ce.width_from_max_int(c["n"]))}
     if k == "uvarint_enc":
         o = np.zeros(16, dtype="uint8")
         io = ce.NumpyIO(o)
